@@ -28,6 +28,10 @@ Families
          object-like and function-like macros x use (plain, argument of an identity macro,
          nested, stringified, pasted, argument of a macro of the cycle, body of a later
          macro, #if); time-boxed like self
+  nest   the same function-like macro nested in its own arguments to depth 4 (thorough 5)
+         through each argument position of 1- and 2-parameter macros (identity, parameter
+         used twice, # and ## on the parameter), alone, inside an argument of a different
+         macro, alternating with a different macro
 
 A case the oracle itself rejects (gcc prints an error located in the case: invalid
 paste, wrong argument count) or whose pasted token is a pp-token but not a C++ token
@@ -153,6 +157,8 @@ def invocations(sig, thorough):
 
 
 def key_of(c):
+    if c["fam"] == "nest":
+        return "nest|%s|%s|%s|d%d|%s" % (c["kind"], c["pattern"], c["wrap"], c["depth"], c["leaf"])
     if c["fam"] == "cycle":
         return "cycle|%s|%s|%s|%s" % (c["shape"], c["kinds"], c["bodyform"], c["use"])
     if c["fam"] == "dir":
@@ -274,6 +280,72 @@ def render_cycle(c, K):
     return L + pre + ["int __case_%s__;" % K] + line.split("\n"), [], None
 
 
+# macros nested in their own arguments: kind -> (parameters, body)
+NEST_KINDS = {
+    "id": ("x", "x"),
+    "twice": ("x", "((x)+(x))"),
+    "str": ("x", "#x x"),
+    "paste": ("x", "a##x x"),
+    "add": ("x,y", "((x)+(y))"),
+    "max": ("x,y", "((x)>(y)?(x):(y))"),
+    "str2": ("x,y", "#x + y"),
+    "cat": ("x,y", "x##y x y"),
+}
+NEST_PATTERNS = {1: ["only"], 2: ["first", "second", "both"]}
+NEST_WRAPS = ["none", "inD", "alt", "inDarg2"]
+
+
+def gen_nest(thorough):
+    """The SAME function-like macro nested in its own arguments to depth 1..4 (thorough 5),
+    through each argument position, alone, inside an argument of a different macro, and
+    alternating with a different macro: every level must be replaced (arguments are
+    expanded in the caller's context, where the macro is still available)."""
+    for kind, (params, _) in NEST_KINDS.items():
+        for pattern in NEST_PATTERNS[params.count(",") + 1]:
+            for wrap in NEST_WRAPS:
+                for depth in range(1, (5 if thorough else 4) + 1):
+                    if pattern == "both" and depth > 4:
+                        continue
+                    for leaf in ("num", "O"):
+                        yield dict(fam="nest", kind=kind, pattern=pattern, wrap=wrap, depth=depth,
+                                   leaf=leaf)
+
+
+def render_nest(c, K):
+    params, body = NEST_KINDS[c["kind"]]
+    M, D = "N" + K, "D" + K
+    counter = [0]
+
+    def leaf():
+        counter[0] += 1
+        return ("O%s" % K) if (c["leaf"] == "O" and counter[0] == 1) else str(counter[0])
+
+    def call(d):
+        """invocation of M with nesting depth d"""
+        if d == 0:
+            return leaf()
+        inner = lambda: call(d - 1)
+        if c["wrap"] == "alt" and d < c["depth"]:
+            inner = lambda: "%s(%s)" % (D, call(d - 1)) if d - 1 > 0 else leaf()
+        if "," not in params:
+            return "%s(%s)" % (M, inner())
+        if c["pattern"] == "first":
+            return "%s(%s, %s)" % (M, inner(), leaf())
+        if c["pattern"] == "second":
+            return "%s(%s, %s)" % (M, leaf(), inner())
+        return "%s(%s, %s)" % (M, inner(), inner())
+    text = call(c["depth"])
+    if c["wrap"] == "inD":
+        text = "%s(%s)" % (D, text)
+    elif c["wrap"] == "inDarg2":
+        text = "%s2(0, %s)" % (D, text)
+    L = ["#define %s(%s) %s" % (M, params, body), "#define %s(z) [z]" % D,
+         "#define %s2(w,z) {w z}" % D]
+    if c["leaf"] == "O":
+        L.append("#define O%s o1 o2" % K)
+    return L + ["int __case_%s__;" % K, text + " ;"], [], None
+
+
 CHAIN_PARAMS = ["x", "y", "z"]
 CHAIN_OPS = ["x", "y", "z", "k"]           # three parameters and a literal identifier
 CHAIN_CTX = [((), ()), (("7",), ()), ((), ("7",)), (("+",), ("+",))]
@@ -339,6 +411,7 @@ def stages(tier):
     for ln in range(1, n + 1):
         st.append(("self", ln, lambda ln=ln: gen_self(ln, thorough)))
     st.append(("cycle", 4 if thorough else 3, lambda: gen_cycle(thorough)))
+    st.append(("nest", 5 if thorough else 4, lambda: gen_nest(thorough)))
     return st
 
 
@@ -360,6 +433,8 @@ def render(c, k):
     unj = None
     if c["fam"] == "cycle":
         return render_cycle(c, K)
+    if c["fam"] == "nest":
+        return render_nest(c, K)
     if c["fam"] == "dir":
         kind = c["kind"]
         head = "M%s(x)" % K if kind == "fn" else "M%s" % K
@@ -649,7 +724,7 @@ def explore(ck):
             continue
         if fam in dead:
             continue
-        is_self = fam in ("self", "cycle")      # time-boxed families
+        is_self = fam in ("self", "cycle", "nest")      # time-boxed families
         if is_self and fam not in box_t0:
             box_t0[fam] = ck.elapsed()
         # self-referential macros get small batches and short limits: a runaway expansion
@@ -731,7 +806,7 @@ def explore(ck):
              "and both preprocessors agree on it",
         exhaustive=True,
         bound="completed per family (body length in nodes; directive-sequence length for dir; "
-              "operands per paste chain for chain; macros per definition set for cycle): %s"
+              "operands per paste chain for chain; macros per definition set for cycle; nesting depth for nest): %s"
               % completed,
         assumptions=["gcc 12 -E -P -std=c++20 is the conforming preprocessor; for `,##__VA_ARGS__` "
                      "(and in the self family) either the ISO (-std=c++20) or the GNU "
